@@ -1,0 +1,149 @@
+//go:build verif
+
+package memory
+
+// Contracts for the deductive verifier in /verif (build tag "verif" only; this
+// file contains no declarations and is not part of any normal build).
+//
+//@ mode int
+//@ implicit [C05]
+//@ globalinv value.Nil.IsNil()
+//
+// Representation invariant. fp holds one (fp, le) pair per activation; activation k owns the
+// slots stack[fp[2k] .. fp[2k+1]); slot fp[2k+1] holds its return address. The whole sequence
+// fp0 <= le0 <= fp1 <= le1 ... <= sp is non-decreasing, so activations never overlap.
+//@ pred wf(m *Type) bool := m != nil && 0 <= m.sp && m.sp <= len(m.stack) && len(m.fp) % 2 == 0
+//@     && (forall j :: 0 <= j && j < len(m.fp) ==> 0 <= m.fp[j] && m.fp[j] <= m.sp)
+//@     && (forall i, j :: 0 <= i && i <= j && j < len(m.fp) ==> m.fp[i] <= m.fp[j])
+//@ pred topFP(m *Type) int := m.fp[len(m.fp)-2]
+//@ pred topLE(m *Type) int := m.fp[len(m.fp)-1]
+//@ pred sameBelow(m *Type, n int) bool := forall i :: 0 <= i && i < n ==> m.stack[i] == old(m.stack[i])
+//@ pred fpSame(m *Type) bool := len(m.fp) == old(len(m.fp)) && (forall j :: 0 <= j && j < len(m.fp) ==> m.fp[j] == old(m.fp[j]))
+//@ pred restSame(m *Type) bool := ref(m.global) == old(ref(m.global)) && same(m.closure, old(m.closure))
+//
+//@ func New [C18]
+//@   ensures[fresh] fresh(result) && wf(result) && result.sp == 0 && len(result.fp) == 0 && len(result.closure) == 0 && len(result.stack) == 0 && result.global != nil
+//
+//@ func (*Type).CallDepth [C18,C02] pure
+//@   requires m != nil
+//@   ensures result == len(m.fp) / 2
+//
+//@ func (*Type).growStack [C18,C03]
+//@   requires wf(m) && size >= 0
+//@   modifies m.stack, elems(m.stack)
+//@   ensures[room]   m.sp + size <= len(m.stack) && (size >= 1 ==> m.sp + size - 1 < len(m.stack))
+//@   ensures[prefix] len(m.stack) >= old(len(m.stack)) && sameBelow(m, old(len(m.stack)))
+//@   ensures[rest]   m.sp == old(m.sp) && same(m.fp, old(m.fp)) && restSame(m) && wf(m)
+//@   ensures[arr]    arr(m.stack) == old(arr(m.stack)) || fresh(m.stack)
+//
+//@ func (*Type).Push [C18,C09]
+//@   requires wf(m)
+//@   modifies m.sp, m.stack, elems(m.stack)
+//@   ensures[top]   m.sp == old(m.sp) + 1 && m.stack[old(m.sp)] == v
+//@   ensures[frame] sameBelow(m, old(m.sp)) && same(m.fp, old(m.fp)) && restSame(m) && wf(m)
+//
+//@ func (*Type).Pop [C18,C09]
+//@   requires wf(m)
+//@   requires[nonempty] m.sp > 0 && (len(m.fp) >= 2 ==> m.sp > topLE(m))
+//@   modifies m.sp
+//@   ensures[top] m.sp == old(m.sp) - 1 && result == old(m.stack[m.sp-1])
+//@   ensures[wf]  wf(m)
+//
+//@ func (*Type).PushFrame [C18,C04]
+//@   requires wf(m)
+//@   requires[counts] 0 <= argsCnt && argsCnt <= localCnt
+//@   requires[args_present] argsCnt <= m.sp && (len(m.fp) >= 2 ==> topLE(m) <= m.sp - argsCnt)
+//@   modifies m.sp, m.fp, m.stack, elems(m.stack), elems(m.fp)
+//@   ensures[shape] m.sp == old(m.sp) + localCnt - argsCnt && len(m.fp) == old(len(m.fp)) + 2
+//@       && topFP(m) == old(m.sp) - argsCnt && topLE(m) == m.sp
+//@       && (forall j :: 0 <= j && j < old(len(m.fp)) ==> m.fp[j] == old(m.fp[j]))
+//@   ensures[nil]   forall i :: old(m.sp) <= i && i < m.sp ==> m.stack[i].IsNil()
+//@   ensures[frame] sameBelow(m, old(m.sp)) && restSame(m)
+//@   ensures[wf]    wf(m)
+//@   loop 0 invariant[fill] m.sp == old(m.sp) && old(m.sp) <= i && i <= m.sp + locals && m.sp + locals <= len(m.stack)
+//@       && locals == localCnt - argsCnt && wf(m) && same(m.fp, old(m.fp)) && restSame(m)
+//@       && (forall j :: old(m.sp) <= j && j < i ==> m.stack[j].IsNil()) && sameBelow(m, old(m.sp))
+//@   loop 0 decreases m.sp + locals - i
+//
+//@ func (*Type).PopFrame [C18,C09]
+//@   requires wf(m)
+//@   requires[has_frame] len(m.fp) >= 2
+//@   modifies m.sp, m.fp
+//@   ensures[sp]    m.sp == old(topFP(m))
+//@   ensures[fp]    len(m.fp) == old(len(m.fp)) - 2 && (forall j :: 0 <= j && j < len(m.fp) ==> m.fp[j] == old(m.fp[j])) && arr(m.fp) == old(arr(m.fp))
+//@   ensures[wf]    wf(m)
+//
+//@ func (*Type).Set [C18,C04]
+//@   requires wf(m)
+//@   requires[in_frame] len(m.fp) >= 2 && 0 <= symIdx && topFP(m) + symIdx < topLE(m)
+//@   modifies elems(m.stack)
+//@   ensures[written] m.stack[topFP(m) + symIdx] == v
+//@   ensures[others]  forall i :: 0 <= i && i < len(m.stack) && i != topFP(m) + symIdx ==> m.stack[i] == old(m.stack[i])
+//
+//@ func (*Type).LookUpLocal [C18] pure
+//@   requires wf(m)
+//@   requires[in_frame] len(m.fp) >= 2 && 0 <= symIdx && topFP(m) + symIdx < topLE(m)
+//@   ensures result == m.stack[topFP(m) + symIdx]
+//
+//@ func (*Type).LookUpClosure [C18] pure
+//@   requires m != nil
+//@   requires[in_frame] len(m.closure) >= 1 && 0 <= symIdx && symIdx < len(m.closure[len(m.closure)-1])
+//@   ensures result == m.closure[len(m.closure)-1][symIdx]
+//
+//@ func (*Type).LookUpGlobal [C18] pure
+//@   requires m != nil
+//@   ensures[bound]   mapdom(m.global, name) ==> result == m.global[name]
+//@   ensures[unbound] !mapdom(m.global, name) ==> result.IsNil()
+//
+//@ func (*Type).SetGlobal [C18]
+//@   requires m != nil && m.global != nil
+//@   modifies mapof(m.global)
+//@   ensures[written] mapdom(m.global, name) && m.global[name] == v
+//@   ensures[others]  forall k string :: k != name ==> mapdom(m.global, k) == old(mapdom(m.global, k)) && m.global[k] == old(m.global[k])
+//
+//@ func (*Type).PushClosure [C18,C09]
+//@   requires m != nil
+//@   modifies m.closure, elems(m.closure)
+//@   ensures len(m.closure) == old(len(m.closure)) + 1 && same(m.closure[len(m.closure)-1], f)
+//@       && (forall j :: 0 <= j && j < old(len(m.closure)) ==> same(m.closure[j], old(m.closure[j])))
+//
+//@ func (*Type).PopClosure [C18,C09]
+//@   requires m != nil
+//@   requires[nonempty] len(m.closure) >= 1
+//@   modifies m.closure
+//@   ensures len(m.closure) == old(len(m.closure)) - 1 && arr(m.closure) == old(arr(m.closure)) && off(m.closure) == old(off(m.closure))
+//
+//@ func (*Type).Top [C18,C03,C04] pure
+//@   requires wf(m)
+//@   ensures[none]  len(m.fp) < 2 ==> result == nil
+//@   ensures[frame] len(m.fp) >= 2 ==> arr(result) == arr(m.stack) && off(result) == off(m.stack) + topFP(m) && len(result) == topLE(m) - topFP(m)
+//
+//@ func (*Type).ResetSP [C18,C09]
+//@   requires m != nil
+//@   modifies m.sp
+//@   ensures m.sp == 0
+//
+//@ func (*Type).Reset [C18,C08,C09]
+//@   requires m != nil
+//@   modifies m.sp, m.fp, m.closure
+//@   ensures m.sp == 0 && len(m.fp) == 0 && len(m.closure) == 0 && ref(m.global) == old(ref(m.global)) && same(m.stack, old(m.stack))
+//
+// Clone forks the top activation into a memory of its own. Nothing is assumed about the recycled
+// memory's sp: a destroyed context is in whatever state it was left in.
+//@ func (*Type).Clone [C18,C03,C02]
+//@   requires wf(m)
+//@   requires[reuse] reuse == nil || (wf(reuse) && reuse != m && arr(reuse.stack) != arr(m.stack) && arr(reuse.fp) != arr(m.fp))
+//@   modifies *reuse, elems(reuse.stack), elems(reuse.fp)
+//@   ensures[m_untouched] (forall i :: 0 <= i && i < len(m.stack) ==> m.stack[i] == old(m.stack[i])) && fpSame(m)
+//@   ensures[distinct]    result != nil && result != m && arr(result.stack) != arr(m.stack) && (len(m.fp) >= 2 ==> arr(result.fp) != arr(m.fp))
+//@   ensures[empty]       len(m.fp) < 2 ==> result.sp == 0 && len(result.fp) == 0
+//@   ensures[shape]       len(m.fp) >= 2 ==> result.sp == m.sp - topFP(m) && len(result.fp) == 2 && result.fp[0] == 0 && result.fp[1] == topLE(m) - topFP(m)
+//@   ensures[room]        result.sp <= len(result.stack)
+//@   ensures[copy]        len(m.fp) >= 2 ==> (forall i :: 0 <= i && i < m.sp - topFP(m) ==> result.stack[i] == m.stack[topFP(m) + i])
+//@   ensures[globals]     ref(result.global) == ref(m.global)
+//@   ensures[closure_separated;C18,C02] len(result.closure) == len(m.closure) && (cap(result.closure) == len(result.closure) || arr(result.closure) != arr(m.closure))
+//@   ensures[closure_same] forall j :: 0 <= j && j < len(m.closure) ==> same(result.closure[j], m.closure[j])
+//@   ensures[wf]          wf(result)
+//
+//@ canary func (*Type).CallDepth
+//@   ensures false
